@@ -1,4 +1,4 @@
-import Hive.Model.OMapConc
+import Hive.Spec.OMapConc
 /-!
 # Lock protocol of `ds.Set`: counting invariant, mutual exclusion, progress (C11)
 
@@ -619,5 +619,75 @@ theorem wf_methods (cs : List Call) : WF .none .none (cs.flatMap methodScript) :
   induction cs with
   | nil => decide
   | cons c r ih => rw [List.flatMap_cons]; exact wf_append (wf_methodScript c) ih
+
+/-! ## which hold of `applyMutex` guards the writes of each method -/
+
+/-- a block without `A` actions whose writes are fine under the current hold -/
+def AFree (b : List Act) : Prop :=
+  ∀ (want hA : Hold) (rest : List Act), hA = want → guardedBy want hA (b ++ rest) = guardedBy want hA rest
+
+theorem afree_nil : AFree [] := fun _ _ _ _ => rfl
+
+theorem afree_append {a b : List Act} (ha : AFree a) (hb : AFree b) : AFree (a ++ b) := by
+  intro want hA rest h
+  rw [List.append_assoc, ha want hA _ h, hb want hA _ h]
+
+theorem afree_omSet : AFree omSet := by
+  intro want hA rest h; subst h; simp [omSet, guardedBy]
+theorem afree_omRead : AFree omRead := by
+  intro want hA rest h; subst h; simp [omRead, guardedBy]
+theorem afree_omClear : AFree omClear := by
+  intro want hA rest h; subst h; simp [omClear, guardedBy]
+theorem afree_omDelete (f : Bool) : AFree (omDelete f) := by
+  unfold omDelete
+  apply afree_append afree_omRead
+  cases f
+  · exact afree_nil
+  · intro want hA rest h; subst h; simp [guardedBy]
+
+theorem afree_rep (n : Nat) {b : List Act} (hb : AFree b) : AFree (rep n b) := by
+  induction n with
+  | zero => exact afree_nil
+  | succ n ih =>
+    have : rep (n + 1) b = b ++ rep n b := by simp [rep, List.replicate_succ]
+    rw [this]; exact afree_append hb ih
+
+theorem afree_flatten {bs : List (List Act)} (h : ∀ b ∈ bs, AFree b) : AFree bs.flatten := by
+  induction bs with
+  | nil => exact afree_nil
+  | cons b r ih =>
+    rw [List.flatten_cons]
+    exact afree_append (h b (by simp)) (ih (fun x hx => h x (List.mem_cons_of_mem _ hx)))
+
+theorem guarded_underR {b : List Act} (hb : AFree b) : guardedBy .r .none ([.rlock .A] ++ b ++ [.runlock .A]) = true := by
+  have := hb .r .r [.runlock .A] rfl
+  simp only [List.singleton_append, List.append_assoc, List.cons_append, List.nil_append, guardedBy] at this ⊢
+  rw [this]
+
+theorem guarded_underW {b : List Act} (hb : AFree b) : guardedBy .w .none ([.req .A, .acq .A] ++ b ++ [.unlock .A]) = true := by
+  have := hb .w .w [.unlock .A] rfl
+  simp only [List.append_assoc, List.cons_append, List.nil_append, guardedBy] at this ⊢
+  rw [this]
+
+/-- `Apply`/`Compute`/`Replace` perform every write while holding `applyMutex` exclusively; `Add`,
+`Delete`, `AddAll`, `DeleteAll` perform every write while holding it shared. -/
+theorem guarded_methodScript (c : Call) (hm : c.isMutator = true) :
+    guardedBy (if c.isAtomic then .w else .r) .none (methodScript c) = true := by
+  cases c with
+  | add => exact guarded_underR afree_omSet
+  | delete f => exact guarded_underR (afree_omDelete f)
+  | addAll n => exact guarded_underR (afree_rep n afree_omSet)
+  | deleteAll fs =>
+    exact guarded_underR (afree_flatten (fun b hb => by obtain ⟨f, _, rfl⟩ := List.mem_map.1 hb; exact afree_omDelete f))
+  | apply n ds =>
+    have := guarded_underW (afree_append (afree_rep n afree_omSet)
+      (afree_flatten (bs := ds.map omDelete) (fun b hb => by obtain ⟨f, _, rfl⟩ := List.mem_map.1 hb; exact afree_omDelete f)))
+    simpa [methodScript, Call.isAtomic, List.append_assoc] using this
+  | replace p n =>
+    have := guarded_underW (afree_append (afree_rep (p + 1) afree_omRead) (afree_append afree_omClear
+      (afree_append (afree_rep n afree_omSet) (afree_rep p afree_omRead))))
+    simpa [methodScript, Call.isAtomic, List.append_assoc] using this
+  | reader n => simp [Call.isMutator] at hm
+  | clear => simp [Call.isMutator] at hm
 
 end Hive.OMap
